@@ -17,7 +17,7 @@ LEAVES = C.leaves()
 LSEL = list(range(len(LEAVES))) if THOROUGH else [0, 1, 2, 6, 9, 11, 12, 16, 18, 19]
 NSEL = len(LSEL)
 NOPS = len(C.OPS)
-PL = tiered(2, 3)            # program length
+PL = 2                       # program length
 TG = [2, 5, 7, 0, 9]        # skip targets (quick uses the first 3)
 NT = tiered(3, 5)
 STEPS = ["next", "skip_to(t)", "skip_to(current or earlier)", "skip_to_quality(0)", "replace(0)", "copy+advance copy", "reset"]
@@ -192,8 +192,8 @@ def _mk(op):
     return name, harness
 
 
-# quick: 4 leaves per operand (term, multi-term range, numeric range, Every); thorough: 10
-SUB = [0, 9, 12, 16] if not THOROUGH else LSEL[:10]
+# quick: 4 leaves per operand (term, multi-term range, numeric range, Every); thorough: 5 (+ phrase)
+SUB = [0, 9, 12, 16] if not THOROUGH else [0, 9, 12, 16, 18]
 AB = len(SUB)
 for _op in range(NOPS):
     _n, _f = _mk(_op)
